@@ -9,6 +9,7 @@ from sa.rules import LEVEL_TEXT, rule
 from sa.rules.util import (
     REWRITE_METHODS,
     bind_call,
+    callee,
     const_str,
     ctor_target,
     fact_isinstance,
@@ -242,8 +243,13 @@ def _mentions(defs, node, par, depth=0):
     ["C01", "C11"],
     """SELECTION-DISTRIBUTION SIBLINGS: Head, Tail and Partitions._simplify_down distribute a row / partition selection
     over the operands of a partitionwise child. All three must decide per operand with the CHILD's own broadcast
-    rule - `self.frame._broadcast_dep(op)` (MapPartitions and Fused override it) - and not wrap broadcast operands;
-    an inlined copy of the base-class test disagrees with those overrides.""",
+    rule - `self.frame._broadcast_dep(op)` (MapPartitions and Fused override it), directly or through a package helper
+    that receives the child and the operand - and wrap an operand only where that rule says "not broadcast" (or the
+    helper adds a further reason); an inlined copy of the base-class test disagrees with those overrides.
+    ROW selections (Head, Tail) additionally cannot decide from the broadcast rule alone: in a frame with ONE partition
+    it answers "broadcast" for every lower-dimensional single-partition operand, row-aligned or reduced, so the
+    decision has to read something more of the operand than its ndim / npartitions (today: its divisions) - otherwise
+    df.add(df.x, axis=0).head(3) keeps all rows of df.x.""",
 )
 def r01c(ctx):
     model = ctx.model
@@ -257,16 +263,56 @@ def r01c(ctx):
             cid = f"_expr.{cname}._simplify_down:distribute#{i}"
             v = comp.generators[0].target.id if isinstance(comp.generators[0].target, ast.Name) else None
             elt = comp.elt
-            if not isinstance(elt, ast.IfExp):
+            if not isinstance(elt, ast.IfExp) or v is None:
                 ctx.unclassified(cid, c.module.loc(comp), "distribution is not a conditional expression")
                 continue
             test = ast.unparse(elt.test)
-            consults = f"self.frame._broadcast_dep({v})" in test
-            wraps_when_broadcast = consults and not any(isinstance(t, ast.Call) and ast.unparse(t) == f"self.frame._broadcast_dep({v})" and not pol for t, pol in flow.conj_terms(elt.test, True))
-            if consults and not wraps_when_broadcast:
-                ctx.ok(cid, c.module.loc(comp), "operands are wrapped unless the child broadcasts them")
-            else:
+
+            def _wraps(arm):
+                return any(isinstance(x, ast.Call) and x.args and isinstance(x.args[0], ast.Name) and x.args[0].id == v for x in ast.walk(arm))
+
+            wrap_pol = True if _wraps(elt.body) else (False if _wraps(elt.orelse) else None)
+            if wrap_pol is None:
+                ctx.unclassified(cid, c.module.loc(comp), "neither arm wraps the operand")
+                continue
+            direct = f"self.frame._broadcast_dep({v})"
+            asked = False
+            op_reads = set()
+            for t, pol in flow.conj_terms(elt.test, wrap_pol):
+                for a in ast.walk(t):
+                    if isinstance(a, ast.Attribute) and isinstance(a.value, ast.Name) and a.value.id == v:
+                        op_reads.add(a.attr)
+                if isinstance(t, ast.Call) and ast.unparse(t) == direct:
+                    asked = asked or not pol
+                elif isinstance(t, ast.Call) and pol:
+                    tgt = callee(model, c.module, c, t)
+                    if tgt is None:
+                        continue
+                    hfn = tgt[2]
+                    params = [a.arg for a in hfn.args.args]
+                    if params and params[0] in ("self", "cls") and isinstance(t.func, ast.Attribute):
+                        params = params[1:]
+                    bound = {params[k]: ast.unparse(a) for k, a in enumerate(t.args) if k < len(params)}
+                    bound.update({kw.arg: ast.unparse(kw.value) for kw in t.keywords if kw.arg})
+                    pf = next((p for p, a in bound.items() if a == "self.frame"), None)
+                    po = next((p for p, a in bound.items() if a == v), None)
+                    if pf is None or po is None:
+                        continue
+                    calls = [x for x in ast.walk(hfn) if isinstance(x, ast.Call) and ast.unparse(x) == f"{pf}._broadcast_dep({po})"]
+                    parents = {id(ch): par for par in ast.walk(hfn) for ch in ast.iter_child_nodes(par)}
+                    if calls and all(isinstance(parents.get(id(x)), ast.UnaryOp) and isinstance(parents[id(x)].op, ast.Not) for x in calls):
+                        asked = True
+                    for a in ast.walk(hfn):
+                        if isinstance(a, ast.Attribute) and isinstance(a.value, ast.Name) and a.value.id == po:
+                            op_reads.add(a.attr)
+            if not asked:
                 ctx.bad(cid, c.module.loc(comp), f"operands are wrapped under `{test}` without asking the child's own rule self.frame._broadcast_dep({v}): a single-partition operand that the child broadcasts (reduction result, one-partition frame in map_partitions / a fused group) gets sliced, so the optimized query fails or differs")
+                continue
+            more = op_reads - {"ndim", "npartitions", "_broadcast_dep"}
+            if cname in ("Head", "Tail") and not more:
+                ctx.bad(f"{cid}:single-partition", c.module.loc(comp), f"the row selection decides per operand from the broadcast rule alone (`{test}`): in a one-partition frame that rule calls every lower-dimensional one-partition operand broadcast, so a row-aligned Series operand (df.add(df.x, axis=0), df.assign(z=df.x)) keeps all its rows while the frame is cut - head()/tail() return extra NaN rows")
+                continue
+            ctx.ok(cid, c.module.loc(comp), "operands are wrapped unless the child broadcasts them" + (f"; row-aligned one-partition operands are told apart by {sorted(more)}" if cname != "Partitions" else ""))
 
 
 # ---------------------------------------------------------------------------------------------
